@@ -96,10 +96,10 @@ var Classes = []string{
 var HTTPOnly = map[string]bool{"stream:narrow": true, "unary:cap": true, "stream:cap": true, "unary:sticky-error": true,
 	"stream:sticky-error": true, "stream:bad-token": true, "stream:no-token": true}
 
-// PipeSkip lists classes a pipe history never contains: a header that does
-// not serialise makes the pipe server write nothing at all and fall out of
-// frame (the session is unusable afterwards), which is C02's subject; the
-// pipe drivers issue it only as the LAST call of a history.
+// PipeLast lists classes a pipe history issues only as its LAST call: on an
+// unrepaired tree a header that does not serialise makes the pipe server write
+// nothing at all and read the client's input stream as the next request, so
+// the session is unusable afterwards (framing is C02's subject, not C37's).
 var PipeLast = map[string]bool{"stream:hdr-fail": true}
 
 // stripException removes EXCEPTION-level client logs: on the wire such a log
